@@ -334,7 +334,7 @@ pub fn with_unknown(doc: &Doc, ins: &[(usize, usize)]) -> Vec<u8> {
 
 pub fn run() {
 	let cx = ctx();
-	cx.note("rule", json!("(a) replays of every framing regime (with gecko blocks where they exist) x unknown events (code,size) in {(0x3E,1),(0x40,2),(0x11,600),(0xFF,4),(0x00,7),(0x7E,65535)} declared in the payload table and inserted at every event boundary after Game Start (between splitter blocks, inside frames, before/after Game End): all single insertions, all pairs (multisets; same or different boundary), and a run of three; plus EVERY one of the 246 undefined codes singly at three boundaries; plus unknown events cut into Message Splitter blocks (1, 512, 700 bytes) at four boundaries; bases with one, two and no Game End; payload tables declaring up to 74 undefined codes; the debug option next to unknown events; the game must equal the one read from the same replay with the unknown events removed, and the model. (b) versions {3.17, 3.255, 4.0, 255.255} with 3.16 content and +1/+3/+17 trailing bytes on each known event kind alone and on all together (Game Start and Game End included), table updated: every known field equals the un-extended parse; start.bytes/end.bytes carry the extra bytes. Non-trivial = contains at least one unknown event / extended payload"));
+	cx.note("rule", json!("(a) replays of every framing regime (with gecko blocks where they exist) x unknown events (code,size) in {(0x3E,1),(0x40,2),(0x11,600),(0xFF,4),(0x00,7),(0x7E,65535)} declared in the payload table and inserted at every event boundary after Game Start (between splitter blocks, inside frames, before/after Game End): all single insertions, all pairs (multisets; same or different boundary), and a run of three; plus EVERY one of the 246 undefined codes singly at three boundaries; plus EVERY payload size 1..=1100 and every multiple of 512 with its two neighbours up to 65,024, and 65,535, for one undefined code (two bases); plus unknown events cut into Message Splitter blocks (1, 512, 700 bytes) at four boundaries; bases with one, two and no Game End; payload tables declaring up to 74 undefined codes; the debug option next to unknown events; the game must equal the one read from the same replay with the unknown events removed, and the model. (b) versions {3.17, 3.255, 4.0, 255.255} with 3.16 content and +1/+3/+17 trailing bytes on each known event kind alone and on all together (Game Start and Game End included), table updated: every known field equals the un-extended parse; start.bytes/end.bytes carry the extra bytes. Non-trivial = contains at least one unknown event / extended payload"));
 	cx.note("exhaustive", json!(true));
 	cx.note("assumptions", json!(["unknown = an event code outside the 10 codes the format defines up to 3.16"]));
 	let mut jobs: Vec<(Arc<Doc>, String, Vec<(usize, usize)>)> = vec![];
@@ -392,6 +392,31 @@ pub fn run() {
 			}
 			for (at, size) in [(1usize, 3u16), ((nb + 1) / 2, 5), (nb, 2)] {
 				code_jobs.push((doc.clone(), a.describe(), code, size, at.max(1)));
+			}
+		}
+	}
+	// EVERY payload size 1..=1100 (every residue modulo 512, twice, and modulo 256, four times) and every multiple of
+	// 512 (and its two neighbours) up to the largest a table entry can declare, for one undefined code at the middle
+	// and last boundary: a reader that skips in blocks of any size up to 1 KiB, or of 512 x k, shows here
+	{
+		let bs = bases(true);
+		let picks: Vec<&AbsReplay> = vec![&bs[0], &bs[bs.len() - 1]];
+		let mut sizes: Vec<u16> = (1..=1100u16).collect();
+		for k in 3..=127u32 {
+			for d in [-1i32, 0, 1] {
+				sizes.push((k as i32 * 512 + d) as u16);
+			}
+		}
+		sizes.push(65535);
+		for (bi, a) in picks.into_iter().enumerate() {
+			let doc = Arc::new(record(a).doc);
+			let nb = doc.events.len();
+			for (si, size) in sizes.iter().enumerate() {
+				if cx.quick() && *size > 1100 && bi == 1 && si % 3 != 0 {
+					continue;
+				}
+				let at = if (si + bi) % 2 == 0 { (nb + 1) / 2 } else { nb };
+				code_jobs.push((doc.clone(), a.describe(), if bi == 0 { 0x42 } else { 0x0F }, *size, at.max(1)));
 			}
 		}
 	}
